@@ -320,11 +320,20 @@ def compile_one(src, flags, includes):
         return obj, None
     cc = CXX if not src.endswith('.c') else 'gcc'
     fl = [f for f in flags if not (src.endswith('.c') and f.startswith('-std=c++'))]
-    cmd = [cc] + fl + includes + ['-MMD', '-MF', dep, '-c', src, '-o', obj + '.tmp']
+    import threading
+    uniq = '.%d.%d' % (os.getpid(), threading.get_ident())
+    cmd = [cc] + fl + includes + ['-MMD', '-MF', dep + uniq, '-c', src, '-o', obj + uniq]
     r = subprocess.run(cmd, stdout=subprocess.PIPE, stderr=subprocess.STDOUT, text=True)
     if r.returncode != 0:
+        for f in (obj + uniq, dep + uniq):
+            if os.path.exists(f):
+                os.unlink(f)
         return obj, 'compile failed: %s\n%s' % (' '.join(shlex.quote(c) for c in cmd), r.stdout[-4000:])
-    os.replace(obj + '.tmp', obj)
+    txt = open(dep + uniq).read().replace(obj + uniq, obj)
+    with open(dep + uniq, 'w') as f:
+        f.write(txt)
+    os.replace(dep + uniq, dep)
+    os.replace(obj + uniq, obj)
     return obj, None
 
 
@@ -350,7 +359,7 @@ def archive(name, objs):
     lib = os.path.join(libdir, 'lib%s-%s.a' % (name, key))
     if os.path.exists(lib) and all(os.path.getmtime(o) <= os.path.getmtime(lib) for o in objs):
         return lib
-    tmp = lib + '.tmp'
+    tmp = lib + '.tmp%d' % os.getpid()
     if os.path.exists(tmp):
         os.unlink(tmp)
     r = sh(['ar', 'rcs', tmp] + objs)
@@ -367,12 +376,13 @@ def link(name, objs, libs=(), flags=(), syslibs=()):
     ins = list(objs) + [l for l in libs if os.path.isabs(l)]
     if os.path.exists(exe) and all(os.path.getmtime(o) <= os.path.getmtime(exe) for o in ins):
         return exe
-    cmd = [CXX] + list(flags) + ['-o', exe + '.tmp'] + list(objs) + ['-Wl,--start-group'] + list(libs) + \
+    tmpx = exe + '.tmp%d' % os.getpid()
+    cmd = [CXX] + list(flags) + ['-o', tmpx] + list(objs) + ['-Wl,--start-group'] + list(libs) + \
           ['-Wl,--end-group'] + list(syslibs)
     r = sh(cmd)
     if r.returncode != 0:
         raise MachineryError('link failed: %s\n%s' % (' '.join(cmd), r.stdout[-6000:]))
-    os.replace(exe + '.tmp', exe)
+    os.replace(tmpx, exe)
     return exe
 
 
